@@ -5,10 +5,15 @@ Property theorems only (helper lemmas live in `Lemmas/C18*.lean`, models in `Mod
 run-time monitor in `Spec/C18*.lean`).  Every theorem quantifies over ALL inputs / operation sequences.
 -/
 import AsmjitVerif.Lemmas.C18Hash
-import AsmjitVerif.Lemmas.C18Bits
+import AsmjitVerif.Lemmas.C18Bits2
+import AsmjitVerif.Lemmas.C18HashMap
+import AsmjitVerif.Lemmas.C18ListPool
+import AsmjitVerif.Lemmas.C18TreeIns11
+import AsmjitVerif.Lemmas.C18TreeRem18
+import AsmjitVerif.Lemmas.C18ListPool2
 import AsmjitVerif.Lemmas.C18Str2
 import AsmjitVerif.Lemmas.C18Arena2
-import AsmjitVerif.Lemmas.C18Vector
+import AsmjitVerif.Lemmas.C18Vector3
 namespace AsmjitVerif.C18
 open AsmjitVerif
 
@@ -80,39 +85,55 @@ theorem bit_iterate_spec (data : Words) (start : Nat) :
 /-- `ArenaBitSet::and_/or_/and_not`: never out of bounds, keep the invariant (capacity consistent, unused bits of the
 last word zero) and act bitwise on the textbook bit lists (the other set padded with `false`) -/
 theorem bitset_or_spec (b other : BitSet) (hb : WF b) (ho : WF other) :
-    ∃ b', or_ b other = some b' ∧ WF b' ∧ b'.size = b.size ∧ b'.cap = b.cap ∧
+    ∃ b', or_ b other = some b' ∧ WF b' ∧ b'.size = b.size ∧ b'.cap = b.cap ∧ b'.data = b.data ∧
       bits b' = List.zipWith (fun x y => x || y) (bits b)
         ((bits other ++ List.replicate (b.size - other.size) false).take b.size) :=
   or_spec b other hb ho
 theorem bitset_and_spec (b other : BitSet) (hb : WF b) (ho : WF other) :
-    ∃ b', and_ b other = some b' ∧ WF b' ∧ b'.size = b.size ∧ b'.cap = b.cap ∧
+    ∃ b', and_ b other = some b' ∧ WF b' ∧ b'.size = b.size ∧ b'.cap = b.cap ∧ b'.data = b.data ∧
       bits b' = List.zipWith (fun x y => x && y) (bits b)
         ((bits other ++ List.replicate (b.size - other.size) false).take b.size) :=
   and_spec b other hb ho
 theorem bitset_andnot_spec (b other : BitSet) (hb : WF b) (ho : WF other) :
-    ∃ b', andNot b other = some b' ∧ WF b' ∧ b'.size = b.size ∧ b'.cap = b.cap ∧
+    ∃ b', andNot b other = some b' ∧ WF b' ∧ b'.size = b.size ∧ b'.cap = b.cap ∧ b'.data = b.data ∧
       bits b' = List.zipWith (fun x y => x && !y) (bits b)
         ((bits other ++ List.replicate (b.size - other.size) false).take b.size) :=
   andNot_spec b other hb ho
 theorem bitset_truncate_spec (b : BitSet) (n : Nat) (hwf : WF b) :
-    ∃ b', truncate b n = some b' ∧ WF b' ∧ b'.size = min b.size n ∧ b'.cap = b.cap ∧ bits b' = (bits b).take n :=
+    ∃ b', truncate b n = some b' ∧ WF b' ∧ b'.size = min b.size n ∧ b'.cap = b.cap ∧ b'.data = b.data ∧ bits b' = (bits b).take n :=
   truncate_spec b n hwf
 theorem bitset_fill_all_spec (b : BitSet) (hwf : WF b) :
-    ∃ b', fillAll b = some b' ∧ WF b' ∧ b'.size = b.size ∧ b'.cap = b.cap ∧ bits b' = List.replicate b.size true :=
+    ∃ b', fillAll b = some b' ∧ WF b' ∧ b'.size = b.size ∧ b'.cap = b.cap ∧ b'.data = b.data ∧ bits b' = List.replicate b.size true :=
   fillAll_spec b hwf
 
-/- Full statement wanted: `resize/append/copy_from` refine `take/replicate`, `snoc`, assignment for EVERY call.
-   Proved: the calls that do not reallocate (`newSize ≤ capacity`); the reallocating branch needs three more facts about
-   `Arena.allocReusable` (allocated ≥ requested, multiple of 8, < 2^29) – it is covered by the correspondence only. -/
-/-- `ArenaBitSet::_resize` (REPAIRED code, fixes/C18-3.patch) inside the capacity: old bits kept, new bits = `v` -/
-theorem bitset_resize_partial (a : Arena.State) (b : BitSet) (newSize ideal : Nat) (v : Bool) (hwf : WF b)
-    (hcap : newSize ≤ b.cap) (hnew : newSize < Arena.u32) :
-    ∃ b', resizeI a b newSize ideal v = some (a, b', Err.ok) ∧ WF b' ∧ b'.size = newSize ∧ b'.cap = b.cap ∧
-      bits b' = (bits b).take newSize ++ List.replicate (newSize - b.size) v :=
-  resizeI_spec_partial a b newSize ideal v hwf hcap hnew
-theorem bitset_append_partial (a : Arena.State) (b : BitSet) (v : Bool) (hwf : WF b) (hlt : b.size < b.cap) :
-    ∃ b', append a b v = some (a, b', Err.ok) ∧ WF b' ∧ b'.size = b.size + 1 ∧ b'.cap = b.cap ∧ bits b' = bits b ++ [v] :=
-  append_spec_partial a b v hwf hlt
+/-- `ArenaBitSet::_resize` (REPAIRED code), EVERY call incl. reallocation, under the oracle bound "no allocation of 2^29
+bytes or more succeeds" (otherwise `uint32_t(allocated * 8)` wraps): never outside the buffer; `kOk` = old bits kept,
+new bits `v`, invariant kept; `kOutOfMemory` = bit set unchanged -/
+theorem bitset_resize_spec (a : Arena.State) (b : BitSet) (n ideal : Nat) (v : Bool)
+    (hI : Inv b) (hn : n < Arena.u32) (hmm : a.mallocMax < 2 ^ 29) :
+    ∃ a' b' e, resizeI a b n ideal v = some (a', b', e) ∧ a'.mallocMax = a.mallocMax ∧
+      ((e = Err.ok ∧ Inv b' ∧ b'.size = n ∧
+          bits b' = (bits b).take n ++ List.replicate (n - b.size) v ∧ (n ≤ b.cap → a' = a ∧ b'.cap = b.cap)) ∨
+       (e = Err.oom ∧ b' = b ∧ b.cap < n)) :=
+  resizeI_full_partial realloc_unfolds a b n ideal v hI hn hmm
+/-- `append` (fast path and `_append` growth): `snoc`, or unchanged on `kOutOfMemory` -/
+theorem bitset_append_spec (a : Arena.State) (b : BitSet) (v : Bool) (hI : Inv b) (hmm : a.mallocMax < 2 ^ 29) :
+    ∃ a' b' e, append a b v = some (a', b', e) ∧ a'.mallocMax = a.mallocMax ∧
+      ((e = Err.ok ∧ Inv b' ∧ b'.size = b.size + 1 ∧ bits b' = bits b ++ [v]) ∨ (e = Err.oom ∧ b' = b)) :=
+  append_full_partial realloc_unfolds a b v hI hmm
+/-- `copy_from`: the bits of `other`, or unchanged on `kOutOfMemory` -/
+theorem bitset_copy_from_spec (a : Arena.State) (b other : BitSet) (hI : Inv b) (hO : Inv other) (hmm : a.mallocMax < 2 ^ 29) :
+    ∃ a' b' e, copyFrom a b other = some (a', b', e) ∧ a'.mallocMax = a.mallocMax ∧
+      ((e = Err.ok ∧ Inv b' ∧ b'.size = other.size ∧ bits b' = bits other) ∨ (e = Err.oom ∧ b' = b)) :=
+  copyFrom_full_partial realloc_unfolds a b other hI hO hmm
+/-- `bitset_refines_bools`: for EVERY sequence of resize/append/set/fill/clear_bits/truncate/clear/fill_all/clear_all/
+release interleaved with oracle steps (`env s`: the arena replaced by any state with `mallocMax < 2^29`), from the empty
+bit set: the model never touches a word outside its block (`≠ stuck`) and, when the client respects the C++ assertions,
+the invariant holds and the bits equal the textbook `List Bool` (`kOutOfMemory` steps change nothing) -/
+theorem bitset_refines_bools (a : Arena.State) (hmm : a.mallocMax < 2 ^ 29) (ops : List BOp) :
+    run a {} [] ops ≠ .stuck ∧
+    ∀ a' b' l', run a {} [] ops = .done a' b' l' → Inv b' ∧ a'.mallocMax < 2 ^ 29 ∧ bits b' = l' :=
+  bitset_refines_bools_partial realloc_unfolds a hmm ops
 
 -- non-vacuity
 example : bitVectorOp true [0#64, 0#64] 60 10 = some [0xF000000000000000#64, 0x3F#64] := by decide
@@ -224,39 +245,224 @@ example : (run [.one 1000, .get 1 100, .get 2 5000, .put 1, .get 3 128] (init 10
 example : safe (init 1024 0) [(0, .managed 0 0, 8)] = false := by decide
 end ArenaS
 
-/-! ## ArenaVector (PARTIAL).
-Full statement wanted (`vec_refines_list`): for every operation sequence (append/prepend/insert/remove_at/pop/clear/truncate/
-reserve_*/resize_*/concat/release) interleaved with arbitrary other arena traffic, the model never writes outside its
-allocation, keeps `size ≤ capacity = buf.length`, answers `kOutOfMemory` without changing the vector, and `items` equals the
-textbook list.  Proved below: the growth policy, the allocator facts the capacity computation rests on, and the refinement of
-the operations that do not allocate.  NOT proved: `reserveWithByteSize` and what depends on it (`reserve_*`, `resize_*`,
-`insert/append/prepend`, `concat`, `release`) and the sequence theorem — these are covered by correspondence + monitor only. -/
+/-! ## ArenaVector: every operation sequence refines the textbook list (`Spec/C18Vector.lean`: `VOp`, `specStep`,
+`Step.env` = the allocation oracle: between any two vector operations the shared arena may be replaced by ANY state with
+`mallocMax < 2^32`, so an allocation may fail at any point and other containers may use the arena).
+Standing hypotheses: `0 < itemSize < 2^32` (C++ `ItemSize::n` is `uint32_t`) and no single allocation of 4 GiB or more
+succeeds (`mallocMax < 2^32`; otherwise `uint32_t(capacity)` truncates, see notes). -/
 section Vec
 open AsmjitVerif.Vector AsmjitVerif.Arena
 
-/-- `expand_ge`: the growth policy never shrinks a request (all `b`, also above `kGrowThreshold`) … -/
+/-- `expand_ge`: the growth policy never shrinks a request … -/
 theorem vec_expand_ge (b : Nat) : b ≤ expandByteSize b := expand_ge' b
 /-- … and never adds more than `kGrowThreshold` (no 64-bit wrap) -/
 theorem vec_expand_le (b : Nat) : expandByteSize b ≤ b + kGrowThreshold := expand_le b
 
-/-- what `alloc_reusable` hands a container is at least the requested size (slot class or exact dynamic block), and below
-4 GiB when no 4 GiB allocation can succeed – so `uint32_t(allocated / item_size)` does not truncate -/
+/-- what `alloc_reusable` hands a container is at least the requested size and below 4 GiB under the oracle bound -/
 theorem vec_alloc_ge {a a' : State} {size allocated : Nat} {p : Loc}
     (h : allocReusable a size = (a', some p, allocated)) (h0 : 0 < size) (h1 : size ≤ u64) :
     size ≤ allocated ∧ allocated ≤ max 2048 size ∧ (a.mallocMax < u32 → allocated < u32) :=
   allocReusable_spec h h0 h1
 
-theorem vec_remove_at_partial {v : Vec} (h : WF v) {i : Nat} (hi : i < v.size) :
-    ∃ v', removeAt v i = some v' ∧ WF v' ∧ items v' = (items v).eraseIdx i := removeAt_spec h hi
-theorem vec_pop_partial {v : Vec} (h : WF v) (h0 : 0 < v.size) :
-    WF (pop v).1 ∧ items (pop v).1 = (items v).dropLast ∧ some (pop v).2 = (items v).getLast? := pop_spec h h0
-theorem vec_truncate_partial {v : Vec} (h : WF v) (n : Nat) :
-    WF (truncate v n) ∧ items (truncate v n) = (items v).take n := truncate_spec h n
-theorem vec_index_of_partial {v : Vec} (h : WF v) (x : Nat) : indexOf v x = (items v).findIdx? (· == x) := indexOf_spec h x
-theorem vec_contains_partial (v : Vec) (x : Nat) : contains v x = true ↔ x ∈ items v := contains_spec v x
+/-- `vec_refines_list`: after EVERY sequence of vector operations and oracle steps the model never wrote outside its
+allocation (`run … = some`), the invariant `WF` holds (`buf.length = capacity`, `size ≤ capacity` = `capacity_ge_size`,
+`capacity < 2^32`) and the items are exactly the textbook list -/
+theorem vec_refines_list {itemSize : Nat} (hi : 0 < itemSize) (hi32 : itemSize < u32) (steps : List Step)
+    (a0 : State) (h0 : a0.mallocMax < u32) :
+    ∃ a v l, run itemSize (a0, {}, []) steps = some (a, v, l) ∧ a.mallocMax < u32 ∧ WF v ∧ items v = l :=
+  Vector.vec_refines_list hi hi32 steps a0 h0
+
+/-- … the same after every prefix of the history, with `size ≤ capacity` and `buf.length = capacity` spelled out -/
+theorem vec_capacity_ge_size {itemSize : Nat} (hi : 0 < itemSize) (hi32 : itemSize < u32) (steps : List Step)
+    (a0 : State) (h0 : a0.mallocMax < u32) (k : Nat) :
+    ∃ a v l, run itemSize (a0, {}, []) (steps.take k) = some (a, v, l) ∧ a.mallocMax < u32 ∧ WF v ∧ items v = l ∧
+      v.size ≤ v.cap ∧ v.buf.length = v.cap ∧
+      run itemSize (a0, {}, []) steps = run itemSize (a, v, l) (steps.drop k) :=
+  vec_refines_list_prefix hi hi32 steps a0 h0 k
+
+/-- in every reachable state every further operation stays inside the allocation, an operation answered
+`kOutOfMemory` (`ok = false`) leaves the vector unchanged, otherwise the items follow the textbook list -/
+theorem vec_failure_unchanged {itemSize : Nat} (hi : 0 < itemSize) (hi32 : itemSize < u32) (steps : List Step)
+    (a0 : State) (h0 : a0.mallocMax < u32) (op : VOp) :
+    ∃ a v l, run itemSize (a0, {}, []) steps = some (a, v, l) ∧
+      ∃ a' v' ok, modelStep itemSize a v op = some (a', v', ok) ∧ WF v' ∧ (ok = false → v' = v) ∧
+        items v' = specStep l op ok :=
+  vec_refines_list_step hi hi32 steps a0 h0 op
+
+/-- per operation: `insert` (append = `index = size`, prepend = `index = 0`), `resize_fit/grow`, `concat` -/
+theorem vec_insert_spec {a : State} {v : Vec} {index : Nat} (item : Nat) {itemSize : Nat}
+    (hw : WF v) (hidx : index ≤ v.size) (hi : 0 < itemSize) (hi32 : itemSize < u32) (hm : a.mallocMax < u32) :
+    OpOk a v ((items v).take index ++ item :: (items v).drop index) (insert a v index item itemSize) :=
+  insert_spec item hw hidx hi hi32 hm
+theorem vec_resize_spec (growing : Bool) {a : State} {v : Vec} (n : Nat) {itemSize : Nat}
+    (hw : WF v) (hi : 0 < itemSize) (hi32 : itemSize < u32) (hm : a.mallocMax < u32) :
+    OpOk a v ((items v).take n ++ List.replicate (n - v.size) 0) (resize growing a v n itemSize) :=
+  resize_spec growing n hw hi hi32 hm
+theorem vec_concat_spec {a : State} {v other : Vec} {itemSize : Nat}
+    (hw : WF v) (ho : WF other) (hi : 0 < itemSize) (hi32 : itemSize < u32) (hm : a.mallocMax < u32) :
+    OpOk a v (items v ++ items other) (concat a v other itemSize) :=
+  concat_spec hw ho hi hi32 hm
+/-- `reserve_fit(n)` answered ok really provides `capacity ≥ n` (part of `ReserveOk`) and never changes the items -/
+theorem vec_reserve_spec {a a' : State} {v v' : Vec} {e : Err} {n itemSize : Nat}
+    (h : reserveFitP a v n itemSize = (a', v', e)) (hw : WF v) (hi : 0 < itemSize) (hi32 : itemSize < u32)
+    (hm : a.mallocMax < u32) : ReserveOk a v n a' v' e :=
+  reserveFitP_spec h hw hi hi32 hm
+/-- lookups: first / last occurrence (textbook recursive definitions) and membership -/
+theorem vec_index_of_spec (v : Vec) (x : Nat) (h : WF v) : indexOf v x = firstIdx x (items v) := indexOf_first h x
+theorem vec_last_index_of_spec (v : Vec) (x : Nat) (h : WF v) : lastIndexOf v x = lastIdx x (items v) := lastIndexOf_spec h x
+theorem vec_contains_spec (v : Vec) (x : Nat) : contains v x = true ↔ x ∈ items v := contains_spec v x
 
 example : expandByteSize 100 = 256 := by decide
-example : (removeAt { data := none, buf := [1, 2, 3, 0], size := 3, cap := 4 } 1).map items = some [1, 3] := by decide
+example : (run 4 (init 1024 0 (2 ^ 30), {}, []) [.vec (.append 4), .env (init 1024 0 0), .vec (.append 5), .vec (.prepend 3),
+    .vec (.removeAt 0)]).map (·.2.2) = some [4, 5] := by decide
 end Vec
+
+/-! ## ArenaHash as a finite map (`Spec/C18HashList.lean`: `HOp`, association list, `lookup`; protocol `HValid`: a key is
+inserted only when absent – the documented "get() first, then insert()" use; `arenaNoise s` = arbitrary arena state, so
+a rehash allocation may fail at any point). -/
+section HashMap
+open AsmjitVerif.Hash AsmjitVerif.Arena AsmjitVerif.Spec.C18HashList
+
+/-- under the table invariant `_calc_mod` is `% bucket_count` (initial table or any generated prime row) -/
+theorem hash_calc_mod (t : Table) (h : Nat) (hw : WF t) (hh : h < 2 ^ 32) : calcMod t h = h % t.count :=
+  calcMod_eq t h hw hh
+/-- `_insert` (including the rehash it may trigger, with or without a successful allocation) keeps the invariant –
+in particular REACHABILITY: every node sits in bucket `hash % bucket_count` – and adds exactly the node -/
+theorem hash_insert_spec (a : State) (t : Table) (n : Node) (hw : WF t) (hh : n.hash < 2 ^ 32)
+    (hfresh : n.uid ∉ (allNodes t).map Node.uid) :
+    WF (insert a t n).2 ∧ (allNodes (insert a t n).2).Perm (n :: allNodes t) :=
+  Hash.insert_spec a t n hw hh hfresh
+/-- `_rehash` never loses or duplicates a node, whatever the arena answers -/
+theorem hash_rehash_spec (a : State) (t : Table) (pi : Nat) (hw : WF t) :
+    WF (rehash a t pi).2 ∧ (allNodes (rehash a t pi).2).Perm (allNodes t) :=
+  rehash_spec a t pi hw
+/-- `_remove` unlinks exactly the node (and answers nullptr for an absent one) -/
+theorem hash_remove_spec (t : Table) (n : Node) (hw : WF t) (hh : n.hash < 2 ^ 32) :
+    WF (remove t n).1 ∧
+    (n ∈ allNodes t → (remove t n).2 = true ∧ (allNodes (remove t n).1).Perm ((allNodes t).erase n)) ∧
+    (n.uid ∉ (allNodes t).map Node.uid → remove t n = (t, false)) :=
+  Hash.remove_spec t n hw hh
+/-- `get` finds a node iff one with that key is in the bucket of the hash code -/
+theorem hash_get_spec (t : Table) (hw : WF t) (key h : Nat) (hh : h < 2 ^ 32) :
+    (get t key h).isSome = true ↔ ∃ n ∈ allNodes t, n.key = key ∧ n.hash % t.count = h % t.count :=
+  get_isSome_iff t hw key h hh
+/-- `hash_refines_map`: for EVERY valid operation sequence, any hash function into 32 bits and any arena behaviour, the
+invariant (reachability) holds, the nodes are exactly the textbook association list and every lookup agrees with it -/
+theorem hash_refines_map (H : Nat → Nat) (hH : ∀ k, H k < 2 ^ 32) (ops : List HOp) (a : State) (hv : HValid [] ops) :
+    WF (runModel H (a, {}) ops).2 ∧
+    ((allNodes (runModel H (a, {}) ops).2).map pr).Perm (runSpec [] ops) ∧
+    ∀ k, (get (runModel H (a, {}) ops).2 k (H k)).map pr = lookup (runSpec [] ops) k :=
+  Hash.hash_refines_map H hH ops a hv
+end HashMap
+
+/-! ## ArenaPool: LIFO recycling of released blocks only. -/
+section PoolS
+open AsmjitVerif.ListPool AsmjitVerif.Arena AsmjitVerif.Spec.C18HashList
+/-- `alloc` after `release x` returns exactly `x` and touches neither the arena nor the rest of the pool -/
+theorem pool_alloc_lifo (p : Pool) (x : Loc) (a : State) (size : Nat) : (p.release x).alloc a size = (a, p, some x) :=
+  ListPool.pool_alloc_lifo p x a size
+/-- for every alloc/release sequence the pool's free list is the textbook stack of released-and-not-reused locations -/
+theorem pool_refines_stack (ops : List POp) (a : State) : (runPool (a, {}) ops).2.free = runStack [] ops :=
+  ListPool.pool_refines_stack ops a
+end PoolS
+
+/-! ## ArenaTree (Julienne Walker top-down red-black tree over the index heap, loops with fuel 256).
+Abstract side: `Spec/C18Tree.lean` (`Represents h t`: the heap reachable from `_root` is the inductive tree `t`, no node
+shared; `t.keys` in-order; `BST`, `RB` = root black ∧ no red-red ∧ equal black height). -/
+section TreeS
+open AsmjitVerif.Tree AsmjitVerif.Tree.Spec AsmjitVerif.Tree.Ins
+
+/-- `get(key)` finds a node iff the key is in the set, and returns a tree node with that key -/
+theorem tree_get_spec {h : Tree} {t : T} (k : Nat) (hr : Represents h t) (hb : t.BST) (hh : t.height < kFuel) :
+    (get h k ≠ 0 ↔ k ∈ t.keys) ∧ (get h k ≠ 0 → key h (get h k) = k ∧ get h k ∈ t.idxs) :=
+  get_spec k hr hb hh
+/-- a red-black tree with fewer than 2^64 nodes has height ≤ 128, so the fuel 256 of the model loops is never exhausted -/
+theorem tree_height_bound {t : T} (hrb : t.RB) (hs : t.size < 2 ^ 64) : t.height ≤ 128 := height_le_128 hrb hs
+/-- `insert_refines` + `rb_balanced` for insert: inserting an absent key into a represented red-black search tree gives a
+represented tree whose key list is the textbook ordered-set insert, again a search tree, again red-black (root black,
+no red-red, equal black height); no node is lost or duplicated and only tree cells and `head` are written -/
+theorem tree_insert_refines {h : Tree} {t : T} {k : Nat} (hr : Represents h t) (hb : t.BST) (hrb : t.RB)
+    (hk : k ∉ t.keys) (hsz : 2 ≤ h.nodes.size) (hsize : t.size < 2 ^ 64) :
+    ∃ t', Represents (insertNode (newNode h k).1 (newNode h k).2) t' ∧ t'.keys = setInsert k t.keys ∧ t'.BST ∧
+      t'.RB ∧ t'.idxs.Perm ((newNode h k).2 :: t.idxs) ∧
+      (insertNode (newNode h k).1 (newNode h k).2).nodes.size = h.nodes.size + 1 ∧
+      (∀ i, i ≠ 1 → i ∉ (newNode h k).2 :: t.idxs →
+        nd (insertNode (newNode h k).1 (newNode h k).2) i = nd (newNode h k).1 i) :=
+  insert_refines_size hr hb hrb hk hsz hsize
+/-- every history of inserts (duplicates skipped like the harness/ConstPool do) refines the ordered set and stays red-black -/
+theorem tree_refines_set_inserts (ops : List TOp) (hins : ∀ op ∈ ops, ∃ k, op = .insert k) (hlen : ops.length < 2 ^ 64) :
+    ∃ t, Represents (runModel ops {}) t ∧ t.keys = runSpec ops [] ∧ t.BST ∧ t.RB :=
+  Ins.tree_refines_set_inserts ops hins hlen
+/-- `remove_refines` (shape part, BOTH paths of `remove`: bottom node = found node, and the `replaceLoop` re-link of the
+bottom node into the found node's place): removing a tree node from a represented search tree gives a represented tree
+whose key list is the textbook ordered-set erase, again a search tree, root black, exactly the passed node gone.
+No red-black hypothesis is needed for this, only enough fuel (`height ≤ 256`). -/
+theorem tree_remove_refines_shape {h : Tree} {t : T} {node : Nat} (hr : Represents h t) (hbst : t.BST)
+    (hmem : node ∈ t.idxs) (hfuel : t.height ≤ kFuel) :
+    ∃ t', Represents (removeNode h node) t' ∧ t'.keys = setErase (key h node) t.keys ∧ t'.BST ∧
+      t'.idxs.Perm (t.idxs.erase node) ∧ t'.isRed = false ∧ 2 ≤ (removeNode h node).nodes.size :=
+  Rem.remove_refines_shape hr hbst hmem hfuel
+
+/-- what is NOT proved about `remove`: that it keeps `noRedRed` and the equal black height (`rb_balanced` for remove) -/
+def RemoveKeepsColours : Prop :=
+  ∀ (h : Tree) (t : T) (n : Nat), Represents h t → t.BST → t.RB → 2 ≤ h.nodes.size → t.size < 2 ^ 64 → n ∈ t.idxs →
+    ∀ t', Represents (removeNode h n) t' → t'.noRedRed ∧ ∃ m, t'.blackH m
+
+/- Full statement wanted (`tree_refines_set` + `rb_balanced`): for every history of inserts and removes from the empty tree
+   the heap represents a red-black search tree whose keys are the textbook ordered set.  Proved unconditionally: histories of
+   inserts (`tree_refines_set_inserts`), every single remove on any search tree (`tree_remove_refines_shape`).  For MIXED
+   histories the next insert/remove needs the red-black invariant of its input (it bounds the height, hence the fuel, and
+   the top-down insert is only shape-correct on a tree without red-red); that remove preserves the colour invariant is the
+   missing lemma, so it is an explicit hypothesis here.  (The monitor checks it after every remove on the real code.) -/
+theorem tree_refines_set_partial (hc : RemoveKeepsColours) (ops : List TOp) (hlen : ops.length < 2 ^ 64) :
+    ∃ t, Represents (runModel ops {}) t ∧ t.keys = runSpec ops [] ∧ t.BST ∧ t.RB :=
+  Ins.tree_refines_set (fun h t n hr hb hrb hsz hsize hn => by
+    obtain ⟨t', h1, h2, h3, _, h5, h6⟩ := Rem.removeStepShape h t n hr hb hrb hsz hsize hn
+    have hcol := hc h t n hr hb hrb hsz hsize hn t' h1
+    exact ⟨t', h1, h2, h3, ⟨h5, hcol.1, hcol.2⟩, h6⟩) ops hlen
+
+-- non-vacuity: a real history with inserts and removes, evaluated
+example : Tree.inorder 64 (runModel [.insert 5, .insert 3, .insert 8, .insert 9, .remove 5, .insert 4, .remove 3] {})
+    (runModel [.insert 5, .insert 3, .insert 8, .insert 9, .remove 5, .insert 4, .remove 3] {}).root = [4, 8, 9] := by decide
+example : runSpec [.insert 5, .insert 3, .insert 8, .insert 9, .remove 5, .insert 4, .remove 3] [] = [4, 8, 9] := by decide
+end TreeS
+
+/-! ## ArenaList: every operation transforms the represented list (`IsList h l xs`: `xs` are the node indices from `first`
+to `last`, links consistent in both directions) like the textbook list operation; both traversals read it back.
+The sequence theorem over all operations is NOT proved (only for prepend/pop_first, `list_refines_list_partial`). -/
+section ListS
+open AsmjitVerif.ListPool AsmjitVerif.ListPool2 AsmjitVerif.Spec.C18HashList
+
+theorem list_append_spec {h l xs n} (hl : ListPool2.IsList h l xs) (hn0 : n ≠ 0) (hns : n < h.size) (hnx : n ∉ xs)
+    (hnext : (nd h n).next = 0) : ListPool2.IsList (addNode h l n true).1 (addNode h l n true).2 (xs ++ [n]) :=
+  addNode_append hl hn0 hns hnx hnext
+theorem list_prepend_spec {h l xs n} (hl : ListPool2.IsList h l xs) (hn0 : n ≠ 0) (hns : n < h.size) (hnx : n ∉ xs)
+    (hprev : (nd h n).prev = 0) : ListPool2.IsList (addNode h l n false).1 (addNode h l n false).2 (n :: xs) :=
+  ListPool2.addNode_prepend hl hn0 hns hnx hprev
+theorem list_insert_after_spec {h l L ref R n} (hl : ListPool2.IsList h l (L ++ ref :: R)) (hn0 : n ≠ 0) (hns : n < h.size)
+    (hnx : n ∉ L ++ ref :: R) : ListPool2.IsList (insertNode h l ref n true).1 (insertNode h l ref n true).2 (L ++ ref :: n :: R) :=
+  insertNode_after hl hn0 hns hnx
+theorem list_insert_before_spec {h l L ref R n} (hl : ListPool2.IsList h l (L ++ ref :: R)) (hn0 : n ≠ 0) (hns : n < h.size)
+    (hnx : n ∉ L ++ ref :: R) : ListPool2.IsList (insertNode h l ref n false).1 (insertNode h l ref n false).2 (L ++ n :: ref :: R) :=
+  insertNode_before hl hn0 hns hnx
+theorem list_unlink_spec {h l L n R} (hl : ListPool2.IsList h l (L ++ n :: R)) :
+    ListPool2.IsList (unlink h l n).1 (unlink h l n).2 (L ++ R) ∧ (nd (unlink h l n).1 n).prev = 0 ∧ (nd (unlink h l n).1 n).next = 0 :=
+  unlink_erase hl
+theorem list_pop_spec {h l L n} (hl : ListPool2.IsList h l (L ++ [n])) : ListPool2.IsList (pop h l).1 (pop h l).2.1 L ∧ (pop h l).2.2 = n :=
+  pop_dropLast hl
+theorem list_pop_first_spec {h l n R} (hl : ListPool2.IsList h l (n :: R)) :
+    ListPool2.IsList (popFirst h l).1 (popFirst h l).2.1 R ∧ (popFirst h l).2.2 = n :=
+  ListPool2.popFirst_tail hl
+/-- forward traversal reads the list, backward traversal reads its reverse (link symmetry) -/
+theorem list_walk_spec {h l xs} (hl : ListPool2.IsList h l xs) (fuel : Nat) (hfuel : xs.length ≤ fuel) :
+    walk fuel h l.first true = xs.map (fun x => (nd h x).val) ∧
+    walk fuel h l.last false = (xs.map (fun x => (nd h x).val)).reverse :=
+  ⟨walk_forward hl fuel hfuel, walk_backward hl fuel hfuel⟩
+/-- sequence theorem, only for the sub-language {prepend, pop_first} -/
+theorem list_refines_list_partial (ops : List LOp) (hops : ∀ op ∈ ops, simpleOp op) :
+    ∃ xs, ListPool.IsList (ops.foldl stepListP (#[{}], {})).1 (ops.foldl stepListP (#[{}], {})).2 xs ∧
+      walk xs.length (ops.foldl stepListP (#[{}], {})).1 (ops.foldl stepListP (#[{}], {})).2.first true = runList [] ops :=
+  ListPool.list_refines_list_partial ops hops
+end ListS
 
 end AsmjitVerif.C18
